@@ -120,7 +120,16 @@ def moments_worker(idx):
     solver.set('timeout', 60000)
     encl = {}
     reported = set()
-    for mode, (nodes, weights), tol in (('written', arm.written(), TOL_WRITTEN), ('double', arm.doubles(), TOL_DOUBLE)):
+    # 'double': the values the real lookup returns for this key (what a caller gets), rounded doubles as exact rationals
+    dbl = arm.doubles()
+    try:
+        Q = importlib.import_module('src.quadrature_rules')
+        r = getattr(Q, arm.family)(*(arm.key if isinstance(arm.key, tuple) else (arm.key, )))
+        if well_formed(r):
+            dbl = ([F(float(x)) for x in r[0]], [F(float(x)) for x in r[1]])
+    except Exception:
+        pass   # lookups that raise / return nothing are reported by the lookup part
+    for mode, (nodes, weights), tol in (('written', arm.written(), TOL_WRITTEN), ('double', dbl, TOL_DOUBLE)):
         for cls, degs in classes_of(arm):
             for k in degs:
                 res['evaluations'] += 1
@@ -191,8 +200,7 @@ def replay(rp):
                     r = getattr(Q, rp['family'])(*key)
                 except Exception:
                     return True
-                return ([float(t) for t in a.nodes_txt] != [float(v) for v in r[0]] or
-                        [float(t) for t in a.weights_txt] != [float(v) for v in r[1]])
+                return not same_rule(a, r)
         return False
     if rp['kind'] == 'sequence':
         # all lookups in file order, then again in reverse: every return value must be its own arm
@@ -205,7 +213,7 @@ def replay(rp):
                 r = getattr(Q, a.family)(*(a.key if isinstance(a.key, tuple) else (a.key, )))
             except Exception:
                 return True
-            if [float(t) for t in a.nodes_txt] != [float(v) for v in r[0]] or [float(t) for t in a.weights_txt] != [float(v) for v in r[1]]:
+            if not same_rule(a, r):
                 return True
         return False
     if rp['kind'] == 'arm':
@@ -223,8 +231,9 @@ def replay(rp):
         return True
     arm = arm[0]
     if rp['mode'] == 'written':
-        nodes = [mpmath.mpf(t.strip()) for t in arm.nodes_txt]
-        weights = [mpmath.mpf(t.strip()) for t in arm.weights_txt]
+        mp = lambda t: mpmath.mpf(tables.dec(t).numerator) / tables.dec(t).denominator
+        nodes = [mp(t) for t in arm.nodes_txt]
+        weights = [mp(t) for t in arm.weights_txt]
     else:
         Q = importlib.import_module('src.quadrature_rules')
         r = getattr(Q, arm.family)(*(key if isinstance(key, tuple) else (key, )))
@@ -238,6 +247,20 @@ def replay(rp):
     I = mpmath.mpf(I.numerator) / I.denominator
     tol = F(rp['tol'])
     return abs(q - I) > (mpmath.mpf(tol.numerator) / tol.denominator) * abs(I)
+
+
+def same_rule(arm, r):
+    """The returned rule is the table entry written for the key: same length, every node and weight equal to the
+    double of its literal up to 1e-14 relative (a wrapper that rescales by a factor 1 +- a few ulp is not a
+    different rule; whether the returned values integrate the advertised class is decided on the returned values)."""
+    try:
+        n, w = arm.floats()
+        rn, rw = [float(v) for v in r[0]], [float(v) for v in r[1]]
+    except Exception:
+        return False
+    if len(n) != len(rn) or len(w) != len(rw):
+        return False
+    return all(abs(a - b) <= 1e-14 * max(abs(a), abs(b)) for a, b in zip(n + w, rn + rw))
 
 
 def well_formed(r):
@@ -304,7 +327,7 @@ def lookup_worker(fam):
                 keyexpr.append(z3.And([eng.real(nm).z3() == c for nm, c in zip(names, kt)]))
             in_table = z3.Or(keyexpr) if keyexpr else z3.BoolVal(False)
             if pr.status == 'exc':
-                if isinstance(pr.exc, AssertionError) and pr.tb[-1].name == fam:
+                if isinstance(pr.exc, AssertionError):   # wherever the table lives (the function or a helper it calls)
                     # the final assert(False): must be impossible for a tabulated / listed key
                     ok, m2 = eng.prove(z3.Not(in_table), 'unknown-key-only')
                     if not ok:
@@ -333,8 +356,7 @@ def lookup_worker(fam):
                     here, _ = eng.feasible(z3.And([eng.real(nm).z3() == c for nm, c in zip(names, kt)]))
                     if not here:
                         continue
-                    same = ([float(t) for t in arm.nodes_txt] == [float(v) for v in pr.value[0]] and
-                            [float(t) for t in arm.weights_txt] == [float(v) for v in pr.value[1]])
+                    same = same_rule(arm, pr.value)
                     if not same:
                         rp = dict(kind='lookup-arm', family=fam, args=list(kt))
                         res['violations'].append(dict(
@@ -377,8 +399,7 @@ def run(out):
         args = a.key if isinstance(a.key, tuple) else (a.key, )
         try:
             r = getattr(Q, a.family)(*args)
-            same = ([float(t) for t in a.nodes_txt] == [float(v) for v in r[0]] and
-                    [float(t) for t in a.weights_txt] == [float(v) for v in r[1]])
+            same = same_rule(a, r)
         except Exception as e:
             same = False
         if not same:
